@@ -152,6 +152,16 @@ def fake_modules(host):
                        'iter_unpack': lambda fmt, b: real_struct.iter_unpack(be(fmt), b), 'calcsize': lambda fmt: real_struct.calcsize(be(fmt)),
                        'Struct': lambda fmt: real_struct.Struct(be(fmt))}
             mods['struct'] = proxy('struct', real_struct, st_over)
+        # resource-limit numbers differ between systems (and a Windows interpreter has no such module at all)
+        darwin_rl = {'RLIMIT_CPU': 0, 'RLIMIT_FSIZE': 1, 'RLIMIT_DATA': 2, 'RLIMIT_STACK': 3, 'RLIMIT_CORE': 4, 'RLIMIT_AS': 5, 'RLIMIT_RSS': 5,
+                     'RLIMIT_MEMLOCK': 6, 'RLIMIT_NPROC': 7, 'RLIMIT_NOFILE': 8, 'RLIM_NLIMITS': 9, 'RLIM_INFINITY': (1 << 63) - 1}
+        if osname != 'nt':
+            try:
+                import resource as real_resource
+                rl = dict(darwin_rl) if host == 'darwin' else {k: (v + 3) % 9 if k.startswith('RLIMIT_') else v for k, v in darwin_rl.items()}
+                mods['resource'] = proxy('resource', real_resource, rl)
+            except ImportError:
+                pass
         # the C data model: a long is 32 bits on the 'nt' hosts
         import ctypes as real_ctypes
         ct_over = {'c_long': real_ctypes.c_int32, 'c_ulong': real_ctypes.c_uint32} if osname == 'nt' else {}
